@@ -21,10 +21,20 @@ EXPLANATION = (
     "`batch_check`. R1v: where the commitment has a separate shifted part, its presence is tied to the presence of "
     "the bound on the label by a refusal (a comparison of the two presences that reaches the outcome, or an aborting "
     "unwrap of the shifted part under a test of the bound), so a label claiming a bound is never accepted with the "
-    "shifted part dropped. The arithmetic of the shift is not decided.")
+    "shifted part dropped. R1f: in `trim` of the two KZG-based schemes the parameters' maximum degree flows (data) "
+    "into every shift-related key field (shifted powers, per-bound shift powers / negative powers of h): a shift "
+    "taken relative to anything smaller leaves higher powers in the SRS to cheat with. The arithmetic of the shift "
+    "itself is not decided.")
 RULE = ("instances = 6 admission rows x {variant present+dependent+propagated, admission dominates msm} + Sonic trim "
         "row + verifier anchors x {degree_bound payload, shifted commitment payload, per-bound key elements}")
 
+SHIFT_FIELDS = {
+    "sonic_kzg10": [("sonic_pc::data_structures::CommitterKey", "shifted_powers_of_g"),
+                    ("sonic_pc::data_structures::CommitterKey", "shifted_powers_of_gamma_g"),
+                    ("sonic_pc::data_structures::VerifierKey", "degree_bounds_and_neg_powers_of_h")],
+    "marlin_kzg10": [("marlin::marlin_pc::data_structures::CommitterKey", "shifted_powers"),
+                     ("marlin::marlin_pc::data_structures::VerifierKey", "degree_bounds_and_shift_powers")],
+}
 PC = T.PC
 MSM = {"msm_bigint", "msm", "msm_unchecked"}
 ADMISSION = {
@@ -53,6 +63,39 @@ def run(rep, ctx, tier):
     else:
         R5.check_row(rep, ctx, "R5", "sonic_kzg10.trim", b, T.SCHEMES["sonic_kzg10"]["adt"], ["UnsupportedDegreeBound"],
                      [T.ROLES["trim"]["enforced_degree_bounds"], T.ROLES["trim"]["supported_degree"]])
+    # R1f: the shift of the degree-bound keys is taken relative to the *maximum* degree of the parameters (the SRS has no
+    # higher powers to shift into); the structural part: max_degree flows (data) into every shift-related key field
+    for sk, fields in SHIFT_FIELDS.items():
+        b = f.find1("trim", self_adt=T.SCHEMES[sk]["adt"], trait=PC)
+        if b is None:
+            rep.add("R1f", "%s.trim:anchor" % sk, False, "%s::trim not found (fail closed)" % sk, None)
+            continue
+        from ..flow import Graph, DATA
+        g = Graph(f, f.closure([b.id], T.SCHEMES[sk]["adt"]), [b.id], T.SCHEMES[sk]["adt"])
+        srcs = [("CALLRES", bid, i) for bid in sorted(g.scope) for i, t in f.bodies[bid].calls()
+                if (t.get("callee") or "").endswith("::max_degree")]
+        par = g.reach(srcs, kinds=(DATA,), typed=False) if srcs else {}
+        reached = {st[0] for st in par}
+        for adt, fld in fields:
+            ops = []
+            for bid in sorted(g.scope):
+                for blk in f.bodies[bid].blocks:
+                    for st in blk["stmts"]:
+                        rv = st["rv"]
+                        if rv.get("k") == "agg" and rv.get("adt") == adt and fld in (rv.get("fields") or []):
+                            op = rv["ops"][rv["fields"].index(fld)]
+                            if op["k"] in ("copy", "move"):
+                                ops.append((bid, op["pl"]["l"]))
+            key = "%s.trim:max_degree->%s.%s" % (sk, adt.rsplit("::", 1)[-1], fld)
+            if not srcs or not ops:
+                rep.add("R1f", key, False, "max_degree() call (%d) or the struct literal setting %s (%d) not found in trim (fail closed)"
+                        % (len(srcs), fld, len(ops)), b.span)
+                continue
+            ok = any(o in reached for o in ops)
+            rep.add("R1f", key, ok,
+                    "the parameters' maximum degree flows into %s" % fld if ok else
+                    "%s is computed without the parameters' maximum degree: the shift is not taken relative to the top of the SRS, "
+                    "so the same element can serve a larger bound under another key" % fld, b.span)
     # verifier side
     missing = []
     anchors = {a.key: a for a in ctx.verifier_anchors(missing)}
